@@ -408,6 +408,14 @@ def classes():
             self._rec("market_after", market=market, mtime=market.get_time(),
                       mtimes=[m.get_time() for m in simulator.markets])
 
+    class DerivedProbeEvent(ProbeEvent):
+        """a user event built on another user event: it only extends setup(); every handler is inherited."""
+
+        def setup(self, settings, *args, **kwargs):
+            super().setup(settings, *args, **kwargs)
+            self.derived = True
+            taps.hits["event_subclass_inheriting_every_handler_set_up"] += 1
+
     def retry_of(base):
         """the built-in event, set up the way a user script does it after a typo: the first attempt (settings with
         one flaw, refused by design) and then the corrected settings go to the same object."""
@@ -440,6 +448,7 @@ def classes():
         "DepthMarket": DepthMarket,
         "FalsyScriptAgent": FalsyScriptAgent,
         "ProbeEvent": ProbeEvent,
+        "DerivedProbeEvent": DerivedProbeEvent,
     }
     return _classes
 
@@ -541,7 +550,9 @@ def run_runner_case(case, sinks=(), with_logger=True, extra_classes=(), settings
             for v in settings.values() if settings_obj is None else ():
                 if isinstance(v, dict) and "firstAttempt" in v and not str(v.get("class", "")).startswith("Retry"):
                     v["class"] = "Retry" + v["class"]
-            for c in (cls["ScriptAgent"], cls["ScriptHFTAgent"], cls["ProbeEvent"], cls["DepthMarket"],
+                if isinstance(v, dict) and v.get("derived") and v.get("class") == "ProbeEvent":
+                    v["class"] = "DerivedProbeEvent"
+            for c in (cls["ScriptAgent"], cls["ScriptHFTAgent"], cls["ProbeEvent"], cls["DerivedProbeEvent"], cls["DepthMarket"],
                       cls["FalsyScriptAgent"]) + tuple(v for k, v in cls.items() if k.startswith("Retry")) \
                     + tuple(extra_classes):
                 runner.class_register(c)
@@ -820,6 +831,7 @@ def gen_accounting_case(rng, tier, hostile=None, hft=None, hostile_hft=False, pe
         sessions[-1]["iterationSteps"] = rng.choice([101, 130, 205])
         sessions[-1]["maxNormalOrders"] = 1
     cfg["simulation"]["sessions"] = sessions
+    sprinkle_empty_event_lists(rng, cfg, 0.2)
     case = {"drive": "runner", "seed": rng.randrange(1 << 31), "config": cfg, "profile": "accounting"}
     if rng.random() < 0.12:
         case["permute_agent_ids"] = True
@@ -879,6 +891,7 @@ def add_builtin_events(rng, cfg, which=None, sessions=None, p_each=0.5):
         cfg[name] = e
         sess[si].setdefault("events", []).append(name)
         added.append(name)
+    sprinkle_empty_event_lists(rng, cfg)
     return added
 
 
@@ -915,6 +928,17 @@ def flawed_settings(rng, e):
     return bad
 
 
+def sprinkle_empty_event_lists(rng, cfg, p=0.3):
+    """sessions that list no event get an explicit empty list now and then (a configuration generator that always
+    writes the key)."""
+    n = 0
+    for s_ in cfg["simulation"]["sessions"]:
+        if "events" not in s_ and rng.random() < p:
+            s_["events"] = []
+            n += 1
+    return n
+
+
 def add_first_attempts(rng, cfg, p=0.15):
     """mark some built-in events of the configuration as 'set up twice: refused first attempt, then corrected'."""
     n = 0
@@ -923,6 +947,7 @@ def add_first_attempts(rng, cfg, p=0.15):
                                                       "OrderMistakeShock") and rng.random() < p:
             v["firstAttempt"] = flawed_settings(rng, v)
             n += 1
+    sprinkle_empty_event_lists(rng, cfg)
     return n
 
 
@@ -963,4 +988,7 @@ def gen_probe(rng, cfg, session_index, total_steps, n_hooks=None, with_filters=T
                 h["cls"] = rng.choice(["Market", "IndexMarket"])
                 h["instance"] = rng.choice(allm)
         hooks.append(h)
-    return {"class": "ProbeEvent", "hooks": hooks}
+    out = {"class": "ProbeEvent", "hooks": hooks}
+    if rng.random() < 0.25:
+        out["derived"] = True   # run as a subclass that inherits every handler
+    return out
